@@ -312,7 +312,7 @@ impl CharSweep {
         if kind != K_NONE { faults.push(apply(&mut evs, kind, k, c, aux)); }
         let es = entries_for(profile != 0, kind == K_FAIL);
         let entry = es[(mix(run, 3) % es.len() as u64) as usize];
-        let mut sc = StreamSc { entry, target: Target::Value, opts: (false, false), src: Src::Events(evs), faults, context: 0, hint: 0, reenter_at: 0 };
+        let mut sc = StreamSc { entry, target: Target::Value, opts: (false, false), src: Src::Events(evs), faults, context: 0, hint: 0, reenter_at: 0, panic_at: 0 };
         sc.normalise();
         (sc, kind, if kind == K_NONE { None } else { Some(k) })
     }
@@ -339,11 +339,13 @@ pub struct ByteSweep {
 impl ByteSweep {
     pub fn new(docs: std::sync::Arc<Docs>) -> Self {
         let mut cum = vec![0u64];
-        for (_, d) in &docs.bytes { let last = *cum.last().unwrap(); cum.push(last + Self::variants(d.len())); }
+        for (_, d) in &docs.bytes { let last = *cum.last().unwrap(); cum.push(last + Self::variants(d.len()) + Self::byteset_variants(d)); }
         ByteSweep { docs, cum }
     }
     fn nsplice() -> u64 { (ILL_FORMED.len() + WELL_FORMED_NOTABLE.len()) as u64 }
     fn variants(m: usize) -> u64 { let m = m as u64; 1 + m + 8 * m + (m + 1) * Self::nsplice() }
+    /// documents with multi-byte characters additionally get every byte replaced by all 256 values
+    fn byteset_variants(d: &[u8]) -> u64 { if d.iter().any(|b| *b >= 0x80) && d.len() <= 512 { 256 * d.len() as u64 } else { 0 } }
     pub fn build(&self, run: u64) -> (StreamSc, u8, Option<usize>) {
         let mut i = match self.cum.binary_search(&run) { Ok(i) => i, Err(i) => i - 1 };
         while self.cum[i + 1] <= run { i += 1; }
@@ -354,13 +356,17 @@ impl ByteSweep {
             j -= 1;
             if j < m { (K_BYTECUT, j as usize, 0) } else {
                 j -= m;
-                if j < 8 * m { (K_BYTEFLIP, (j / 8) as usize, (j % 8) as u32) } else { j -= 8 * m; (K_SPLICE, (j / Self::nsplice()) as usize, (j % Self::nsplice()) as u32) }
+                if j < 8 * m { (K_BYTEFLIP, (j / 8) as usize, (j % 8) as u32) } else {
+                    j -= 8 * m;
+                    if j < (m + 1) * Self::nsplice() { (K_SPLICE, (j / Self::nsplice()) as usize, (j % Self::nsplice()) as u32) }
+                    else { j -= (m + 1) * Self::nsplice(); (K_BYTESET, (j / 256) as usize, (j % 256) as u32) }
+                }
             }
         };
         let mut faults = vec![];
         if kind != K_NONE { faults.push(apply_bytes(&mut b, kind, k, aux)); }
         let entry = if mix(run, 5) & 1 == 0 { Entry::SliceWith } else { Entry::Slice };
-        (StreamSc { entry, target: Target::Value, opts: (false, false), src: Src::Bytes(b), faults, context: 0, hint: 0, reenter_at: 0 }, kind, if kind == K_NONE { None } else { Some(k) })
+        (StreamSc { entry, target: Target::Value, opts: (false, false), src: Src::Bytes(b), faults, context: 0, hint: 0, reenter_at: 0, panic_at: 0 }, kind, if kind == K_NONE { None } else { Some(k) })
     }
 }
 
@@ -447,7 +453,7 @@ impl Search {
                 if first.map(|f| k < f.1).unwrap_or(true) { first = Some((kind, k.min(b.len()))); }
             }
             let entry = if rng.chance(1, 2) { Entry::SliceWith } else { Entry::Slice };
-            let sc = StreamSc { entry, target: Target::Value, opts: (false, false), src: Src::Bytes(b), faults, context: 0, hint: 0, reenter_at: 0 };
+            let sc = StreamSc { entry, target: Target::Value, opts: (false, false), src: Src::Bytes(b), faults, context: 0, hint: 0, reenter_at: 0, panic_at: 0 };
             let at = byte_fault_item(&sc, first.map(|f| f.1));
             return (sc, first.map(|f| f.0).unwrap_or(K_NONE), at);
         }
@@ -470,7 +476,7 @@ impl Search {
         }
         let es = entries_for(profile != 0, has_fail);
         let entry = *rng.pick(es);
-        let mut sc = StreamSc { entry, target: Target::Value, opts: (false, false), src: Src::Events(evs), faults, context: 0, hint: 0, reenter_at: 0 };
+        let mut sc = StreamSc { entry, target: Target::Value, opts: (false, false), src: Src::Events(evs), faults, context: 0, hint: 0, reenter_at: 0, panic_at: 0 };
         sc.truncate_after_terminal();
         sc.normalise();
         (sc, first.map(|f| f.0).unwrap_or(K_NONE), first.map(|f| f.1))
